@@ -22,7 +22,8 @@ import (
 // the label "postquantum", one declaring none, and one name for which no binary exists (its wrap fails).
 
 type C11CLI struct {
-	Recips   []string `json:"recips"` // "x<k>" | "plug-labels" | "plug-plain" | "plug-missing"
+	Recips   []string `json:"recips"`        // "x<k>" | "plug-labels" | "plug-plain" | "plug-missing"
+	Via      []int    `json:"via,omitempty"` // per recipient: 0 = -r on the command line, 1 or 2 = a line of recipients file 1 or 2 (-R)
 	Armor    bool     `json:"armor"`
 	Out      string   `json:"out"`                    // "file" | "stdout"
 	PreExist bool     `json:"pre_existing,omitempty"` // out=file: the file exists before, with other content
@@ -52,6 +53,11 @@ func genC11CLI(r *core.RNG) *C11CLI {
 			p.Recips = append(p.Recips, "plug-missing")
 		}
 	}
+	if r.Chance(1, 2) {
+		for range p.Recips {
+			p.Via = append(p.Via, r.Pick(0, 0, 1, 1, 2))
+		}
+	}
 	return p
 }
 
@@ -75,22 +81,40 @@ func (e C11) execCLI(p *C11CLI, c *core.Ctx) *core.Verdict {
 	if p.Armor {
 		argv = append(argv, "-a")
 	}
-	for _, r := range p.Recips {
+	files := map[int]string{}
+	for i, r := range p.Recips {
+		var text string
 		switch r {
 		case "plug-labels":
 			labelled++
-			argv = append(argv, "-r", ref.Bech32Encode("age1simlabels", []byte("simulated recipient")))
+			text = ref.Bech32Encode("age1simlabels", []byte("simulated recipient"))
 		case "plug-plain":
 			unlabelled++
-			argv = append(argv, "-r", ref.Bech32Encode("age1simplain", []byte("simulated recipient")))
+			text = ref.Bech32Encode("age1simplain", []byte("simulated recipient"))
 		case "plug-missing":
 			missing++
-			argv = append(argv, "-r", ref.Bech32Encode("age1simmissing", []byte("simulated recipient")))
+			text = ref.Bech32Encode("age1simmissing", []byte("simulated recipient"))
 		default:
 			var k int
 			fmt.Sscanf(r[1:], "%d", &k)
 			unlabelled++
-			argv = append(argv, "-r", cliRecipientString(world.Key{T: "x", K: k}))
+			text = cliRecipientString(world.Key{T: "x", K: k})
+		}
+		if i < len(p.Via) && p.Via[i] > 0 {
+			if files[p.Via[i]] == "" {
+				c.Stats.Inc("probe.cli_recipients_file")
+				files[p.Via[i]] = "# recipients file\n"
+			}
+			files[p.Via[i]] += text + "\n"
+		} else {
+			argv = append(argv, "-r", text)
+		}
+	}
+	for _, n := range []int{1, 2} {
+		if files[n] != "" {
+			name := filepath.Join(dir, fmt.Sprintf("recipients%d.txt", n))
+			os.WriteFile(name, []byte(files[n]), 0o644)
+			argv = append(argv, "-R", name)
 		}
 	}
 	refused := missing > 0 || (labelled > 0 && unlabelled > 0)
@@ -129,10 +153,10 @@ func (e C11) execCLI(p *C11CLI, c *core.Ctx) *core.Verdict {
 	if b, err := os.ReadFile(out); err == nil {
 		fileData, fileThere = b, true
 	}
-	c.Log.Add("cli %v armor=%v out=%s pre=%v plen=%d -> exit=%d stdout=%d file=%v/%d (model: refused=%v)", p.Recips, p.Armor, p.Out, p.PreExist, p.PLen, exit, so.Len(), fileThere, len(fileData), refused)
+	c.Log.Add("cli %v via=%v armor=%v out=%s pre=%v plen=%d -> exit=%d stdout=%d file=%v/%d (model: refused=%v)", p.Recips, p.Via, p.Armor, p.Out, p.PreExist, p.PLen, exit, so.Len(), fileThere, len(fileData), refused)
 	c.Stats.Inc("probe.cli_real_plugin_processes")
-	c.Stats.Eval(fmt.Sprintf("cli|%v|%v|%s|%v|%d", p.Recips, p.Armor, p.Out, p.PreExist, p.PLen), len(p.Recips) > 1 || refused)
-	desc := fmt.Sprintf("age -e%s to %v, output to %s", map[bool]string{true: " -a", false: ""}[p.Armor], p.Recips, p.Out)
+	c.Stats.Eval(fmt.Sprintf("cli|%v|%v|%v|%s|%v|%d", p.Recips, p.Via, p.Armor, p.Out, p.PreExist, p.PLen), len(p.Recips) > 1 || refused)
+	desc := fmt.Sprintf("age -e%s to %v (given by -r / recipients file number: %v), output to %s", map[bool]string{true: " -a", false: ""}[p.Armor], p.Recips, p.Via, p.Out)
 	if refused {
 		c.Stats.Inc("probe.cli_refused_list")
 		if missing > 0 {
